@@ -151,6 +151,81 @@ def run(ctx):
         else:
             ctx.violation("R16.3", f.short, "%s can return Ok for a value with a fractional part in raw units (no dominating fract().is_zero() guard that forces an error)" % f.short, "%s:%d" % (f.sp[0], f.sp[1]))
 
+    # ---- R16.3b every place that turns a Decimal into an integer is behind an exactness guard on that very value
+    ctx.rule("R16.3b", "wherever the LEF importer reads the integer value of a Decimal (mantissa / to_i*), a test that THIS value's fractional part is zero dominates the read, with the non-zero outcome unable to reach it - in the same function, or (when the value is a parameter) at every call site: a guard composed over two values (`x off && y off`) does not qualify")
+    n_int = 0
+    INT_READ = re.compile(r"Decimal::mantissa$|ToPrimitive>?::to_(i|u)\d+$|ToPrimitive>?::to_(i|u)size$|Decimal::to_(i|u)\w+$")
+
+    def value_root(b, o, depth=0):
+        """the local holding the Decimal a call chain (trunc / normalize / clone / deref ..) starts from"""
+        r = root_local(b, o)
+        d = b.single_def(r) if r is not None else None
+        if d is not None and d[2] == "call" and d[3]["args"] and depth < 6 and re.search(r"Decimal::(trunc|normalize|round\w*|abs)$|::clone$|::deref$|::borrow$", callee_name(d[3]) or ""):
+            return value_root(b, d[3]["args"][0], depth + 1)
+        return r
+
+    def guarded_at(b, bi, x):
+        okb, errb = od.ret_kind_blocks(b)
+        for gb, u in b.calls():
+            if not re.search(r"Decimal::is_zero$", callee_name(u) or "") or not u["args"]:
+                continue
+            fr = b.def_call(u["args"][0])
+            if fr is None:
+                dd0 = b.single_def(root_local(b, u["args"][0]))
+                fr = dd0[3] if dd0 and dd0[2] == "call" else None
+            if fr is None or not re.search(r"Decimal::fract$", callee_name(fr) or "") or not fr["args"]:
+                continue
+            if value_root(b, fr["args"][0]) != x or not b.dominates(gb, bi):
+                continue
+            br = od.bool_branches(b, gb)
+            if not br:
+                continue
+            zero_t, nonzero_t = br
+            removed = set(errb)
+            for bj, w_ in b.calls():
+                if (callee_name(w_) or "").endswith("Try>::branch") and w_["args"] and w_["t"] is not None:
+                    inner = b.def_call(w_["args"][0])
+                    if inner is not None and always_err(F, callee_id(inner)) and b.term(w_["t"])["k"] == "switch":
+                        for v, tgt in b.term(w_["t"])["arms"]:
+                            if v == 0:
+                                removed.add(tgt)
+            if bi not in od.reach(b, nonzero_t, removed=removed):
+                return True
+        return False
+
+    def guarded(f, b, bi, x, depth=0):
+        if guarded_at(b, bi, x):
+            return True, "guarded in place"
+        if x is not None and 1 <= x <= b.argc and depth < 2 and not f.pub:
+            callers = []
+            for g in F.fns.values():
+                if not g.id.startswith(PFX) or not g.body or g.id == f.id:
+                    continue
+                gb_ = Body(g)
+                for cj, u in gb_.calls():
+                    if callee_id(u) == f.id and x - 1 < len(u["args"]):
+                        callers.append((g, gb_, cj, value_root(gb_, u["args"][x - 1])))
+            if callers and all(guarded(g, gb_, cj, xr, depth + 1)[0] for g, gb_, cj, xr in callers):
+                return True, "guarded at every call site (%s)" % ", ".join(sorted({g.short.split("::")[-1] for g, _, _, _ in callers}))
+        return False, ""
+    for f in F.fns.values():
+        if not f.id.startswith(PFX) or not f.body or f.derived:
+            continue
+        b = Body(f)
+        for bi, t in b.calls():
+            n = callee_name(t) or ""
+            if not INT_READ.search(n) or not t["args"]:
+                continue
+            n_int += 1
+            x = value_root(b, t["args"][0])
+            ok_, how = guarded(f, b, bi, x)
+            key = "%s/%s" % (f.short, n.split("::")[-1])
+            if ok_:
+                ctx.ok("R16.3b", key, how)
+            else:
+                ctx.violation("R16.3b", key, "%s reads the integer value of a Decimal (%s) that is not behind a test of its own fractional part (neither here nor at every call site): an off-grid coordinate is truncated instead of reported for some inputs" % (f.short, n.split("::")[-1]), b.site(bi), key)
+    ctx.floor("R16.3b", "decimal_to_integer_sites", n_int, 1)
+
     # ---- R16.4m repeated layers / ports are merged, not overwritten
     from rules import mergerules as mr
     folding = select(F, PFX, [IMP, r"^&lef21::LefMacro$"], r"Result<.*Abstract,") + select(F, PFX, [IMP, r"^&lef21::LefPin$"], r"Result<.*AbstractPort,")
